@@ -66,7 +66,14 @@ def float_rules(ctx, prog, md, prec, pow_uses):
     cfg = md.cfg
     # the scaled fraction: the local compared with pow10_[prec]
     carry = []
-    for u in pow_uses:
+    # a const local initialised once from pow10_[prec] stands for it (`const double scale = pow10_[prec];`)
+    alias_refs = []
+    for n_ in md.all_nodes():
+        if n_.k == 'DeclStmt':
+            for dd, ini in n_.r.get('decls', []):
+                if ini >= 0 and any(u_ in list(md.node(ini).walk()) for u_ in pow_uses) and md.node(ini).strip(casts=True) in pow_uses and len(q.local_defs(md, dd)) == 1:
+                    alias_refs += [x for x in md.all_nodes() if x.k == 'DeclRefExpr' and x.declid == dd]
+    for u in list(pow_uses) + alias_refs:
         par = u.parent
         while par is not None and par.k in ('ImplicitCastExpr', 'ParenExpr', 'CStyleCastExpr'):
             par = par.parent
@@ -251,7 +258,7 @@ def run(ctx):
     av = {mcfg.vertex_of(n) for n, _ in assigns}
     uses = [n for n in md.all_nodes() if n.k == 'ArraySubscriptExpr' and n.children[0].strip(casts=True).k == 'DeclRefExpr' and
             n.children[0].strip(casts=True).decl['n'] == 'pow10_']
-    ctx.need(len(uses) >= 2, 'pow10_[prec] uses not found')
+    ctx.need(len(uses) >= 1, 'pow10_[prec] uses not found')
     for i, u in enumerate(uses):
         idx = u.children[1]
         ctx.need(q.refers_to_decl(idx, prec), 'pow10_ is indexed by something other than prec')
@@ -276,7 +283,7 @@ def run(ctx):
                   'pow10_[prec] can be reached with prec outside [0, %d] (unclamped range [%s, %s])' % (len(vals) - 1, lo, hi))
     float_rules(ctx, prog, md, prec, uses)
     ctx.floor('R08.2', 4)
-    ctx.floor('R08.3', 3)
+    ctx.floor('R08.3', 2)
     ctx.floor('R08.4', 2)
     ctx.floor('R08.5', 3)
     ctx.floor('R08.6', 1)
